@@ -116,6 +116,7 @@ class FileEntriesAdapter(Subconstruct):
         
         file_entries: List[FileEntry] = []
         for _i in range(max_table_entry_cnt):
+            entry_address = stream.tell()
             if is_table_end(stream):
                 break
             file_entry_container: Union[FileEntryContainer, None] = None
@@ -123,6 +124,9 @@ class FileEntriesAdapter(Subconstruct):
                 file_entry_container = self.subcon.parse_stream(stream, _=context, sat=sat)
             except (ConstructError, RequestedInvalidSector):
                 pass
+            # a failed parse stops inside the entry: continue at the 
+            # next entry boundary
+            stream.seek(entry_address + table_entry_size, SEEK_SET)
 
             if file_entry_container is not None and file_entry_container.start > 0:
                 name = file_entry_container.name
